@@ -28,7 +28,7 @@ def run(ctx):
         if f.rec.get("ret", "").endswith("command::CommandStatus") and any(t.get("rpath") in charge_fns for bb, t in f.calls()):
             admit_fns.append(f)
     ctx.floor("R05.1", "admission functions (return a status and charge weight)", len(admit_fns), 1)
-    ctx.floor("R05.3", "store insert sites", len(S.ops.get("insert", [])), 2)
+    ctx.floor("R05.3", "store insert sites", len(S.ops.get("insert", [])), 1)
 
     # R05.1a: admission charges once iff Accepted
     status_fns = {n for n, g in F.fns.items() if g.rec.get("ret", "").endswith("command::CommandStatus")}
@@ -68,7 +68,7 @@ def run(ctx):
         cs = f.calls()
         if any(t.get("rpath") in admit_names for b, t in cs) and any(t.get("rpath") in S.insert_fns for b, t in cs):
             handlers.append(f)
-    ctx.floor("R05.1", "put handlers (admit then insert)", len(handlers), 2)
+    ctx.floor("R05.1", "put handlers (admit then insert)", len(handlers), 1)
     for f in handlers:
         ctx.touch(f)
         paths = ipaths(F, f, stop=lambda n: n in admit_names or n in S.insert_fns or n in S.presence_fns or n in S.filtered_presence_fns, depth=2)
